@@ -46,3 +46,7 @@ add("C07", "weight-matrix extraction from the real kernel (identity as data) com
 add("C08", "reference-model postcondition (own bracketing search, exact rational formula) at interp_1d_linear and Grid.transform(linear/log), incl. names and dask over non-axis dims",
     "Every returned value, NaN placement, dimension name and result name is compared with the model for random columns, "
     "level placements (nodes, ends, outside) and target spellings. Runs on the pure-Python numba stand-in.", "2/C08")
+add("C06", "lazy/eager differential under many chunk compositions and schedules (synchronous, thread pools, seeded chaos executor with injected delays); dask callback counting graph executions during build",
+    "Each lazy result is built under a callback that must see no graph execution, then computed under 2-3 schedulers and "
+    "compared (values bit-exact, dims, coords, name) with the in-memory result; the number of distinct task execution orders "
+    "actually observed is in the evidence.", "2/C06")
